@@ -144,7 +144,9 @@ def check(run, F, tier):
     if feed:
         # framer explored on its own (PacketBuilder is not inlined into recv)
         inl_feed = lambda ex, callee, info: callee.get("impl_self", "").startswith("mqtt::connection::packet_builder::") \
-            or callee.get("impl_self", "").startswith("mqtt::common::cursor::Cursor") or callee.get("kind") == "Closure"
+            or callee.get("impl_self", "").startswith("mqtt::common::cursor::Cursor") or callee.get("kind") == "Closure" \
+            or (callee.get("kind") == "Fn" and not callee.get("pub") and len(callee["blocks"]) <= 40
+                and callee["path"].startswith(("mqtt::common::cursor::", "mqtt::connection::packet_builder::")))     # their private free helpers
         # ledger keys name the framer's fields by role (discovered by type and use), not by their current spelling
         from rules import c09 as C09
         exf = explore.Explorer(F, loop_k=1, inline_pred=inl_feed)
